@@ -292,6 +292,25 @@ def gen_lines(rng, L, be, n_cheap, n_exp, hist, ophist, for_c06=False):
     return out
 
 
+def corpus_lines(prop, L, be=None):
+    """minimised past failures from corpus/<prop>/*.txt (run first on every check)"""
+    d = os.path.join(vlib.ROOT, "corpus", prop)
+    out = []
+    if not os.path.isdir(d):
+        return out
+    for f in sorted(os.listdir(d)):
+        for ln in open(os.path.join(d, f)):
+            t = ln.split()
+            if not t or t[0].startswith("#"):
+                continue
+            if be is not None:
+                if t[0] in (be, "*") and t[1] in (str(L.lvl), "*"):
+                    out.append(" ".join(t[2:]))
+            elif t[0] in (str(L.lvl), "*"):
+                out.append(" ".join(t[1:]))
+    return out
+
+
 def fixed_lines(L, be):
     """deterministic corner cases that always run (corpus): the listed findings and classic edge cases"""
     o = ["fp_is_square 0 0", "fp2_is_square 0 0 0", "fp_inv 0 0", "fp2_inv 0 0 0", "fp_sqrt 0 0", "fp2_sqrt 0 0 0",
@@ -305,12 +324,6 @@ def fixed_lines(L, be):
               "fp_is_equal 0 0 %x" % L.p, "fp_neg 0 %x" % L.p, "fp_add 0 %x %x" % (2 ** L.B - 1, 2 ** L.B - 1),
               "fp_sub 0 0 %x" % (2 ** L.B - 1), "fp_mul 0 %x %x" % (2 ** L.B - 1, 2 ** L.B - 1), "fp_sqr 0 %x" % (2 ** L.B - 1),
               "fp_half 0 %x" % (2 ** L.B - 1), "gf_legendre 0 0", "gf_legendre 0 %x" % L.p]
-        # witnesses of the lost carry in gf65376_square / gf27500_square (known finding bw:square:lost-carry)
-        o += ["gf_mul_small 0 %x ffffffff" % ((2 ** 32 + 1) * 2 ** (64 * (L.n - 1)) + (2 ** 64 - 1) * 2 ** (64 * (L.n - 2)))]
-        if L.lvl == 3:
-            o += ["fp_sqr 0 41000000000000000000000000000000793fa4b0227a69cefffffffffffffffffffffffffffffffffffffffffffffffe"]
-        if L.lvl == 5:
-            o += ["fp_sqr 0 %x" % (2 ** 500 - 0x130)]
     return o
 
 
@@ -483,7 +496,7 @@ def oracle(L, be, line, res):
     if op == "gf_mul_small":
         e = fpres(V(a[0]) * a[1])
         if e and len(r) == 1 and r[0] >= 1 and V(r[0] - 1) == V(a[0]) * a[1] % p:
-            return bad("result is a*x + 1 (stale carry flag enters the fold chain)", key="bw:gf_mul_small:stale-carry")
+            return bad("result is a*x + 1 (stale carry flag enters the fold chain; defect repaired by 2ef264b has returned)", key="bw:gf_mul_small:stale-carry")
         return e
     if op == "gf_xsquare":
         if a[1] == 0:
